@@ -131,6 +131,17 @@ CHECKS['C08'] = dict(level=MC, ref='4 C08',
          'relative error (1e-7) are floating-point facts MEASURED by the harness and enter as verdict bits - observed, not modelled; the model decides which guarantees must hold. bounded: N=1..4, '
          '6 families, MPS (random, rank-deficient, non-unit factor, complex) and MPO, 180/3000 sequences of 8/12 moves',
     technique='TLA+ gauge state machine (MpsCanon) + TLC + trace validation of recorded move sequences with measured guarantees')
+CHECKS['C09'] = dict(level=MC, ref='4 C09',
+    text='EnvCoherence.tla models the environment cache Env.F as a coherence protocol (entries with dependency vectors over site content versions; update / clear / derived precompute entries; '
+         'Heff0/1/2 and measure are READS that must be fresh). Sweeps.tla writes the sweep schedules of dmrg_ (1site, 2site) and tdvp_ as the exact event sequences of the code; SweepsMC model-checks '
+         'fresh reads for N<=4 x precompute (and the TDVP time budget). Binding without source change: class-level wrappers record every update_env_/clear_site_/Heff/measure call of every '
+         'environment instance of real dmrg_ runs, site writes are inferred from content digests; TraceEnv.tla requires (a) no stale/missing read in any instance, (b) the cache events of the '
+         'energy environment to be EXACTLY the schedule of Sweeps.tla for the methods used, (c) per-sweep relations on scaled energies (E_reported = <H> in the returned state, E >= E0 of the '
+         'sector, no increase when nothing binds) and measured verdicts (normalised, canonical, same sector, converged untruncated run => eigenstate, penalty runs orthogonal and at the next level).',
+    note='energies / norms / residuals / reference eigenvalues (numpy eigvalsh of the sector block of the dense H) are floating-point observations (2e-5 on energies); TLC decides the protocol and '
+         'the relations. bounded: N=2..6, 5 families, single MPO and sums, D0 1..16, D_total 2/4/64, ncv 2/3/6, 1..4 sweeps with method switches; 48/700 runs + 24/350 convergence/penalty runs '
+         '(real and complex couplings)',
+    technique='TLA+ cache-coherence protocol (EnvCoherence) + sweep schedules (Sweeps) + TLC + trace validation of recorded real runs incl. exact schedule equality')
 NA = {}
 m = {"version": 1, "setup_cmd": "true",
      "hooks": {"guard": "YASTN_VERIF", "enable": "no source hooks so far: the harness wraps the public API from outside and imports yastn live from /repo (override: VERIF_REPO)",
